@@ -98,3 +98,18 @@ Lemma nat_ltb_trans a b c : Nat.ltb a b = true -> Nat.ltb b c = true -> Nat.ltb 
 Proof. rewrite !Nat.ltb_lt. lia. Qed.
 Lemma nat_ltb_total a b : Nat.ltb a b = false -> Nat.ltb b a = false -> a = b.
 Proof. rewrite !Nat.ltb_ge. lia. Qed.
+
+(* ---- the arm64 instance that the Q cases compare with the real unwinder: no hypothesis left *)
+From RM Require Import C13.ProofsLimits.
+Lemma bytes_eqb_spec a b : bytes_eqb a b = true <-> a = b.
+Proof. split; [apply bytes_eqb_true|intros ->; apply bytes_eqb_refl]. Qed.
+
+Lemma a64_walk_order_independent (iter1 iter2 : list (bytes * option Z) -> list (bytes * option Z)) written callee :
+  Permutation (iter1 (cfi_map bytes_eqb written)) (cfi_map bytes_eqb written) ->
+  Permutation (iter2 (cfi_map bytes_eqb written)) (cfi_map bytes_eqb written) ->
+  a64_walk iter1 written callee = a64_walk iter2 written callee.
+Proof.
+  intros P1 P2. unfold a64_walk.
+  exact (walk_cfi_order_independent bytes_eqb bytes_eqb_spec bytes_ltb bytes_ltb_irrefl bytes_ltb_trans bytes_ltb_total
+           a64_step iter1 iter2 written (a64_forwarded callee) P1 P2).
+Qed.
